@@ -110,7 +110,7 @@ class Result:
         s.routes = []; s.reached = {}; s.stats = {}; s.wall = 0.0; s.funcs = []; s.samples = []; s.asserts = 0; s.models_used = []
     def ok(s): return not s.bugs and not s.inconclusive
 
-def run_harness(ll, entry, params=None, setup=None, on_end=None, env_models=None, witness=None, eng_opts=None, args=(), max_bugs=8, allow_throw=None, time_limit=None):
+def run_harness(ll, entry, params=None, setup=None, on_end=None, env_models=None, witness=None, eng_opts=None, args=(), max_bugs=8, allow_throw=None, time_limit=None, concrete=None):
     """Symbolically execute harness entry `entry` of module `ll` over all paths.
     params: dict of concrete harness parameters (read by models such as verif_len)
     Returns Result."""
@@ -128,6 +128,7 @@ def run_harness(ll, entry, params=None, setup=None, on_end=None, env_models=None
     used = set()
     for install in (env_models or []): install(eng)
     eng.env_witness = witness
+    if concrete is not None: eng.concrete_inputs = list(concrete)
     st = E.State(eng)
     if setup: setup(eng, st)
     eng.push_frame(st, entry, list(args))
